@@ -27,9 +27,16 @@ class World(object):
         self.tag = []       # the arrays handed to depccg (shared across calls)
         self.dep = []
         for s in wspec['sentences']:
-            if s.get('rich'):
+            style = s.get('token_style') or ('rich' if s.get('rich') else 'plain')
+            if style == 'rich' and self.g['lang'] == 'ja':
+                toks = [Token(word=w, surf=w, pos='名詞', pos1='一般', pos2='*', pos3='*',
+                              inflectionForm='*', inflectionType='*', reading='ヨミ', base=w + 'b')
+                        for w in s['words']]
+            elif style == 'rich':
                 toks = [Token(word=w, lemma=w.lower() + 'L', pos='NN', entity='O', chunk='I-NP')
                         for w in s['words']]
+            elif style == 'bare':
+                toks = [Token(word=w) for w in s['words']]
             else:
                 toks = [Token.of_word(w) for w in s['words']]
             self.tokens.append(toks)
